@@ -1,5 +1,5 @@
 (* C19 through the NFSv4.0 model - the property theorems, and nothing else. *)
-From VF Require Import Nfs40.Model Nfs40.Proofs19.
+From VF Require Import Nfs40.Model Nfs40.Proofs19 Nfs40.ProofsClose.
 Open Scope N_scope.
 
 (* replay_same_reply40 (OPEN_CONFIRM, OPEN_DOWNGRADE, CLOSE, LOCK with a new
@@ -134,3 +134,25 @@ Theorem false_retry_detected_refuted :
   /\ o = mkOut (RpOp (ResOpen 1 1002 true)) [].
 Proof. exact false_retry_open_witness. Qed.
 Print Assumptions false_retry_detected_refuted.
+
+(* close_replay_resolvable: CLOSE keeps the closed open-owner file in
+   openOwnerFilesByOther, with an empty share reservation and the successor
+   state ID ([Uo]: open-owner file keys are unique, true of every reachable
+   state by PropertiesC18.accounting_invariant) ... *)
+Theorem close_keeps_stateid : forall sid c s s1 nsq other,
+  Uo s -> tx_close sid c s = (s1, ResStateid nsq other, Some other) ->
+  lsa s1 other = Some mask_none /\ nsq = next_seq (sid_seq sid) /\ sid_other sid = SoReg other.
+Proof. exact tx_close_keeps_stateid. Qed.
+Print Assumptions close_keeps_stateid.
+
+(* ... so that the retransmitted CLOSE finds its owner and is answered with
+   the cached reply, without any effect *)
+Theorem close_replay_resolvable : forall t sid seq c s other o oo nsq,
+  sid_other sid = SoReg other -> nsq = next_seq (sid_seq sid) ->
+  find_live_oofs other (enter t s) = Some o ->
+  find_oos (of_client o, of_owner o) (enter t s) = Some oo ->
+  oo_intx oo = false -> oo_last oo = Some (mkCached KClose (ResStateid nsq other) (Some other)) -> seq = oo_lastseq oo ->
+  do_req 0 t c (RClose sid seq) s = (enter t s, RpOp (ResStateid nsq other))
+  \/ exists st, do_req 0 t c (RClose sid seq) s = (s, RpPutfhFail st).
+Proof. exact ProofsClose.close_replay_resolvable. Qed.
+Print Assumptions close_replay_resolvable.
